@@ -68,8 +68,14 @@ const MemPages = 4
 const StartMarker = 0x80
 
 // Binary returns the shim module.
-func Binary() []byte {
+func Binary() []byte { return BinaryNamed("") }
+
+// BinaryNamed returns the shim with the given module name in its name section.
+func BinaryNamed(moduleName string) []byte {
 	m := &wasmb.Module{}
+	if moduleName != "" {
+		m.Name, m.NameSection = moduleName, true
+	}
 	type fn struct {
 		idx uint32
 		s   sig
